@@ -686,7 +686,23 @@ def gen():
     out += [']', '', 'end Yaql.Gen.MutFacts', '']
     pyfacts.emit('MutFacts', '\n'.join(out))
     off = offending(rows)
-    return dict(functions=len({r['fn'] for r in rows}), rows=len(rows),
+    # rows that break C09Gen.no_param_mutation (the same predicate as `rowOk`, with the `allowed` list of the Lean file)
+    allowed = set()
+    try:
+        import os
+        import re
+        import common
+        src = open(os.path.join(common.LEAN, 'Yaql', 'Props', 'C09Gen.lean')).read()
+        body = src[src.index('def allowed'):src.index('def rowOk')]
+        body = re.sub(r'--[^\n]*', '', body)
+        allowed = set(re.findall(r'\("([^"]+)",\s*"([^"]+)"\)', body))
+    except Exception:       # noqa
+        pass
+    broken = [r for r in rows if (r['fn'], r['param']) not in allowed and (
+        r['mutates'] or r['storesAttr'] or r.get('writesGlobal') or r['unreadable']
+        or (r['kind'] == 'value' and r['unknownCall']) or (r['writesCtx'] and r['kind'] != 'context'))]
+    return dict(broken_rows=[dict(fn=r['fn'], param=r['param'], details=r['details'][:4]) for r in broken],
+                functions=len({r['fn'] for r in rows}), rows=len(rows),
                 container_params=sum(1 for r in rows if set(r['admits']) & {'list', 'dict', 'set'}),
                 ctx_writers=[r['fn'] + ':' + r['param'] for r in rows if r['writesCtx']],
                 flagged=[dict(fn=r['fn'], param=r['param'], details=r['details'][:4]) for r in off])
